@@ -406,6 +406,15 @@ func fsCreateHook(path string) {
 }
 
 // FsCreateTemp stands in for os.CreateTemp (the trace log file): the same name in every run of a scenario.
+// BufQueueCap is the capacity of a transfer's queue of received reads (10000 in the shipped code): a tuning
+// knob a scenario may turn down so that the queue fills up within a run of ordinary length.
+func BufQueueCap() int {
+	if w := cur.Load(); w != nil && w.BufQueue > 0 {
+		return w.BufQueue
+	}
+	return 10000
+}
+
 func FsCreateTemp(dir, pattern string) (*os.File, error) {
 	w := cur.Load()
 	if w == nil {
